@@ -185,7 +185,8 @@ def replay(files, violation, known=(), timeout=300, patches=(), scaled_files=Non
         if n != 1:
             return False, "replay patch %s matched %d times in %s" % (pname, n, fn)
         ov[fn] = new
-    rc, out = common.go_test_overlay(ov, "^TestVerifReplay$", timeout=timeout)
+    extra = ["-ldflags=-checklinkname=0"] if any("//go:linkname" in t for t in ov.values()) else []
+    rc, out = common.go_test_overlay(ov, "^TestVerifReplay$", timeout=timeout, extra_args=extra)
     line = ""
     for l in out.splitlines():
         if l.startswith("VERIF-REPLAY:"):
